@@ -305,6 +305,47 @@ def run(ctx):
         keyflow = any(k.dest and k.dest[0] in sl for k in sv.calls(r'HashMap::<.*>::get$'))
     ctx.ob('VERIFY-GATE', 'SignatureVerifier::verify_signature:pinned-valid-key', pinned and valid and keyflow, sv.where(),
            'verification uses the pinned key looked up by key_id (%s / flows into the primitive: %s) and only while is_valid() (%s)' % (pinned, keyflow, valid))
+    # one source of truth for the pinned key: every field of SignatureVerifier read on the verification path besides the
+    # pinned-key table itself is derived state (a cache of parsed keys, a memo of verdicts); whoever replaces a pinned key
+    # must update it too, otherwise a replaced key keeps verifying and the current one is refused
+    SV = 'upgrade::verifier::SignatureVerifier'
+    table = None
+    for fld in prog.adt_fields(SV):
+        if 'PinnedKey' in (prog.field_ty(SV, fld) or ''):
+            table = fld
+    if table is None:
+        ctx.anchor_fail('VERIFY-GATE', SV + '.<pinned key table>')
+    else:
+        read = L.fields_read(prog, sv, SV, depth=3)
+        derived = sorted(f for f in read if f != table)
+
+        def touches(fld, mut):
+            out = set()
+            for wb, bi, kind, th in L.field_writes(prog, SV, fld):
+                if kind in ('assign', 'mut-borrow', 'call-dest') and not wb.root.endswith('::new'):
+                    out.add(wb.root)
+            if not mut:
+                return out
+            # interior mutability: lock().insert / write().clear ... on the field
+            tag = '.%s::%s' % (SV, fld)
+            for wb in prog.bodies.containing(json.dumps(tag)):
+                for g in L.guards(wb):
+                    if g.mode in ('write', 'lock') and g.lock_field() == fld and not wb.root.endswith('::new'):
+                        out.add(wb.root)
+                for cs2 in wb.calls(r'RwLock::<.*>::write$|Mutex::<.*>::lock$|RwLock<.*>>::write$|Mutex<.*>>::lock$|lock_api::.*::(write|lock)$'):
+                    if cs2.args and wb.expr(cs2.args[0]).strip().show().endswith('.' + fld) and not wb.root.endswith('::new'):
+                        out.add(wb.root)
+            return out
+        writers = touches(table, False)
+        probs = []
+        for f in derived:
+            upd = touches(f, True)
+            for w in sorted(writers):
+                if w not in upd:
+                    probs.append('%s changes the pinned keys but not `%s`, which verify_signature also reads' % (w.rsplit('::', 1)[-1], f))
+        ctx.ob('VERIFY-GATE', 'SignatureVerifier:single-key-source', not probs, sv.where(),
+               ('verify_signature reads only the pinned-key table `%s`%s' % (table, (' and derived state %s that every writer of the table also updates' % derived) if derived else ''))
+               if not probs else ('stale verification key: %s' % '; '.join(probs)), entry=sv.root)
     vf = prog.async_body('upgrade::verifier::SignatureVerifier::verify_file')
     ctx.touch(vf, len(vf.calls()))
     oks = [bb for bb, _ in L.success_returns(vf)]
